@@ -695,8 +695,10 @@ def information_schema_fs_tables_ext(expression: exp.Expression) -> exp.Expressi
         and tbl_exp.name.upper() == "TABLES"
         and tbl_exp.db.upper() == "INFORMATION_SCHEMA"
     ):
+        # <database>.information_schema.tables takes its extra columns from that database, not from the current one
+        catalog = f"{tbl_exp.args['catalog'].sql()}." if tbl_exp.args.get("catalog") else ""
         return expression.join(
-            "information_schema._fs_tables_ext",
+            f"{catalog}information_schema._fs_tables_ext",
             on=(
                 """
                 tables.table_catalog = _fs_tables_ext.ext_table_catalog AND
